@@ -244,6 +244,7 @@ package openapiv3
 // the required list of an object schema names exactly the fields carrying the buf.validate `required` rule (C19)
 //@ func (g *Generator) buildObjectSchema(message *protogen.Message) (r *base.SchemaProxy)
 //@   modifies *
+//@   opaque openapiv3.checkIfFieldRequired
 //@   at-call CreateSchemaProxy requires required_complete: forall k int :: 0 <= k && k < len(message.Fields) && checkIfFieldRequired(message.Fields[k]) ==> (exists j int :: 0 <= j && j < len(arg0.Required) && arg0.Required[j] == message.Fields[k].Desc.JSONName())
 //@   at-call CreateSchemaProxy requires required_sound: forall j int :: 0 <= j && j < len(arg0.Required) ==> (exists k int :: 0 <= k && k < len(message.Fields) && checkIfFieldRequired(message.Fields[k]) && arg0.Required[j] == message.Fields[k].Desc.JSONName())
 //@   loop 1 invariant forall k int :: 0 <= k && k < _i1 && checkIfFieldRequired(message.Fields[k]) ==> (exists j int :: 0 <= j && j < len(required) && required[j] == message.Fields[k].Desc.JSONName())
@@ -251,10 +252,12 @@ package openapiv3
 
 //@ func (g *Generator) buildNestedOneofSchema(message *protogen.Message, discriminatedOneofs []*annotations.OneofDiscriminatorInfo, oneofFields map[string]bool) (r *base.SchemaProxy)
 //@   modifies *
+//@   opaque openapiv3.checkIfFieldRequired
 //@   at-call CreateSchemaProxy requires required_complete: forall k int :: 0 <= k && k < len(message.Fields) && !(inDom(oneofFields, string(message.Fields[k].Desc.Name())) && oneofFields[string(message.Fields[k].Desc.Name())]) && checkIfFieldRequired(message.Fields[k]) ==> (exists j int :: 0 <= j && j < len(arg0.Required) && arg0.Required[j] == message.Fields[k].Desc.JSONName())
 //@   loop 1 invariant forall k int :: 0 <= k && k < _i1 && !(inDom(oneofFields, string(message.Fields[k].Desc.Name())) && oneofFields[string(message.Fields[k].Desc.Name())]) && checkIfFieldRequired(message.Fields[k]) ==> (exists j int :: 0 <= j && j < len(required) && required[j] == message.Fields[k].Desc.JSONName())
 
 //@ func (g *Generator) buildFlattenedObjectSchema(message *protogen.Message) (r *base.SchemaProxy)
 //@   modifies *
-//@   at-call CreateSchemaProxy requires required_complete: arg0.Properties == baseProps ==> (forall k int :: 0 <= k && k < len(message.Fields) && !spec.flattenAnno(message.Fields[k]) && checkIfFieldRequired(message.Fields[k]) ==> (exists j int :: 0 <= j && j < len(arg0.Required) && arg0.Required[j] == message.Fields[k].Desc.JSONName()))
-//@   loop 1 invariant forall k int :: 0 <= k && k < _i1 && !spec.flattenAnno(message.Fields[k]) && checkIfFieldRequired(message.Fields[k]) ==> (exists j int :: 0 <= j && j < len(baseRequired) && baseRequired[j] == message.Fields[k].Desc.JSONName())
+//@   opaque annotations.IsFlattenField, openapiv3.checkIfFieldRequired
+//@   at-call CreateSchemaProxy requires required_complete: arg0.Properties == baseProps ==> (forall k int :: 0 <= k && k < len(message.Fields) && !annotations.IsFlattenField(message.Fields[k]) && checkIfFieldRequired(message.Fields[k]) ==> (exists j int :: 0 <= j && j < len(arg0.Required) && arg0.Required[j] == message.Fields[k].Desc.JSONName()))
+//@   loop 1 invariant forall k int :: 0 <= k && k < _i1 && !annotations.IsFlattenField(message.Fields[k]) && checkIfFieldRequired(message.Fields[k]) ==> (exists j int :: 0 <= j && j < len(baseRequired) && baseRequired[j] == message.Fields[k].Desc.JSONName())
